@@ -175,7 +175,7 @@ def classify_case(ctx, case, via, contracts, index=0):
     if os.path.exists(db):
         os.remove(db)
     load_argv = ['load', db, '-p', paths[0], '-e', paths[1], '-z', paths[2], '--timezone', case.get('tz', 'UTC')]
-    cls_argv = ['classify', db, '-s', repr(float(case['sthr'])), '-j', repr(float(case['jthr']))]
+    cls_argv = ['classify', db, '-s', data.num_arg(case['sthr'], index), '-j', data.num_arg(case['jthr'], index // 4)]
     # message verbosity is an option like any other: -v, -vv, -vvv with the log sent to a file
     verbosity = index % 4
     if verbosity:
